@@ -1,0 +1,30 @@
+//go:build verif
+
+// Contracts for the deductive verification kept in /verif (govc). This file is
+// compiled only with the "verif" build tag and contains no code: every
+// contract lives in a comment block and is read by the verifier together with
+// the real source of this package.
+
+package internal
+
+/*@
+
+// ---------- C20: only plain file names are joined to a directory ----------
+
+func CheckFilename
+  // whatever is accepted names a file inside the directory it is joined to
+  ensures result == nil ==> plainName(name)
+  // and every plain name is accepted
+  ensures plainName(name) ==> result == nil
+
+// Copy delivers a complete file under the name dest (temporary file + rename) or fails without effect on dest.
+// Trusted: the body works through *os.File, io.Copy and a deferred clean-up; the bounded C20 harness exercises it.
+trusted func Copy
+  ensures result == nil ==> fsClock == old(fsClock) + 1 && fsAt[dest] == fsClock && fsFrom[dest] == source
+  ensures result != nil ==> fsClock == old(fsClock) && fsAt[dest] == old(fsAt[dest]) && fsFrom[dest] == old(fsFrom[dest])
+  ensures forall p string :: p != dest ==> fsAt[p] == old(fsAt[p]) && fsFrom[p] == old(fsFrom[p])
+  modifies fsClock, mapof(fsAt), mapof(fsFrom)
+
+property C20: CheckFilename
+
+@*/
